@@ -240,6 +240,38 @@ def body_reshape(E, ext, v1, v2, v3, fresh):
         return dsk is not None and same_cells(dsk, {(7, 2): v2})
 
 
+def body_two_live(E, o1, o2, o3, pol3, v1, v2, v3):
+    """two Harvester objects alive at the same time on one data name, used alternately: each synced
+    harvest must start from what is on disk, not from the object's own (possibly stale) memory"""
+    pl = POL[concretize(pol3, 0, 2)]
+    with E() as env:
+        path = env.parent + "/data.h5"
+        hs = [Harvester(Runner(lambda a: 0, var_names="x"), data_name=path) for _ in range(2)]
+        ghost = {}
+        plan = [(o1, 1, v1, None), (o2, 2, v2, None), (o3, 1, v3, pl)]
+        for o, lab, v, p in plan:
+            h = hs[1 if cbool(o) else 0]
+            new = {(lab,): v}
+            want = policy(ghost, new, p)
+            try:
+                h.add_ds(mk_ds(env, {lab: v}), overwrite=p)
+                raised = False
+            except merge_error(env):
+                raised = True
+            if want is None:
+                if not raised:
+                    return False
+            else:
+                if raised:
+                    return False
+                ghost = want
+            if not same_cells(disk_cells(env, "data.h5", "h5netcdf") or {}, ghost):
+                return False
+            if not raised and not same_cells(cells_of(env, h.full_ds), ghost):
+                return False
+        return True
+
+
 BODIES = {}
 _G = globals()
 _SIG = ("ext:bool eng:int pre_on:bool b1:int b2:int b3:int w1:int w2:int w3:int "
@@ -277,6 +309,11 @@ CONDS = [
               fixed=dict(steps=1), timeout=300,
               bounds="arbitrary pre-state on {1,2}; one operation with sync=False on {2,3}: memory follows the "
                      "policy, disk is untouched"),
+    make_cond(_G, "two_live", body_two_live, "o1:bool o2:bool o3:bool pol3:int v1:int v2:int v3:int",
+              ["0 <= pol3 <= 2"], timeout=300,
+              bounds="three synced add_ds steps on labels 1, 2, 1 issued through either of two simultaneously live "
+                     "Harvester objects (every assignment), third step with any policy and equal or conflicting value: "
+                     "disk and the acting object's memory follow the oracle"),
     make_cond(_G, "reshape", body_reshape, "ext:bool v1:int v2:int v3:int fresh:bool", [], timeout=120,
               bounds="add_ds, expand_dims, optional new session, drop_sel: memory, disk and a new session agree"),
 ] + split_conds(
